@@ -18,7 +18,8 @@ let mvp_case _ line =
     | "1" -> mvp12_run V1 (nat_of_int fuel) prog (lookup labels) st
     | "2" -> mvp12_run V2 (nat_of_int fuel) prog (lookup labels) st
     | "3" -> mvp3_run (nat_of_int fuel) prog (lookup labels) st
-    | "4" -> mvp4_run (nat_of_int (fuel * 50)) prog (lookup labels) st
+    | "4" -> mvp4_run (nat_of_int fuel) prog (lookup labels) st
+    | "5" -> mvp5_run (nat_of_int fuel) prog (lookup labels) st
     | _ -> failwith ("unknown variant " ^ variant) in
   match res with
   | MDone (c, st') ->
